@@ -16,7 +16,7 @@ type c08 struct{ base }
 
 func init() {
 	runner.Register(&c08{base{id: "C08", level: "fault_enumeration",
-		rule: "fault catalogue (every way a request can fail in this I/O-free library), each fault injected in >=3 different reachable states (seeded write histories on a table with 2 GSIs + 1 LSI, plus a second table) per adapter: unknown table; key attribute missing / of wrong type; index-key attribute of wrong type with the offending index first / middle / last in every map-iteration order (repeated); unused / undefined / malformed placeholders; syntax error and ill-typed operand in a condition (documented panic path) and in an update; failing k-th action of a multi-action update after k-1 successful ones; conditional check failed; reserved word; active emulated failure (both kinds) for every data op; batch rejected by validation; batch aborted by a failing sub-request after earlier sub-requests; UpdateTable whose later index change fails. Oracle: the request must fail AND the complete observation (GetItem of every key, base scan, every index scan, DescribeTable counts and index sets of every table) must be identical before/after, and the model (which skipped the call) must still agree after 5 further writes. non-trivial = the state holds >=2 items and the fault is detected after at least one internal step could have run; distinct by (adapter, fault id, op, state size class).",
+		rule: "fault catalogue (every way a request can fail in this I/O-free library), each fault injected in >=3 different reachable states (seeded write histories on a table with 2 GSIs + 1 LSI, plus a second table) per adapter: unknown table; key attribute missing / of wrong type; index-key attribute of wrong type with the offending index first / middle / last in every map-iteration order (repeated); unused / undefined / malformed placeholders; syntax error and ill-typed operand in a condition (documented panic path) and in an update; failing k-th action of a multi-action update after k-1 successful ones; conditional check failed; reserved word; active emulated failure (both kinds) for every data op; batch rejected by validation; batch aborted by a failing sub-request after earlier sub-requests; UpdateTable whose later index change fails; writes to an item that predates an index whose key type its attribute does not have. Oracle: the request must fail AND the complete observation (GetItem of every key, base scan, every index scan, DescribeTable counts and index sets of every table) must be identical before/after, and the model (which skipped the call) must still agree after 5 further writes. non-trivial = the state holds >=2 items and the fault is detected after at least one internal step could have run; distinct by (adapter, fault id, op, state size class).",
 		assumptions: commonAssumptions}})
 }
 
@@ -25,6 +25,10 @@ type fault struct {
 	mk func(r *rand.Rand, t string, present, absent val.Item) []adapt.Op // ops; the LAST one must fail, earlier ones are setup (e.g. activate failure)
 	// cleanup ops run after the observation (e.g. deactivate failure) before comparing
 	pre, post []adapt.Op
+	// stateSetup: the ops before the last one CHANGE the state (they build the situation the fault needs), so
+	// the "before" observation is taken after them and the model continuation is skipped; mayPass: DynamoDB
+	// semantics do not oblige the request to fail - only "if it fails, it leaves no trace" is checked
+	stateSetup, mayPass bool
 }
 
 func badIndexItem(h, rg string, which int) val.Item {
@@ -308,6 +312,12 @@ func c08Faults() []fault {
 	add("updatetable-second-change-fails", func(r *rand.Rand, t string, p, a val.Item) []adapt.Op {
 		return one(adapt.Op{Kind: adapt.OpUpdateTable, Table: t, Chg: []adapt.IndexChange{{Create: &adapt.IndexSpec{Name: "gsiNew", Hash: "v2"}}, {Delete: "nosuchindex"}}})
 	})
+	add("updatetable-delete-existing-then-fail", func(r *rand.Rand, t string, p, a val.Item) []adapt.Op {
+		return one(adapt.Op{Kind: adapt.OpUpdateTable, Table: t, Chg: []adapt.IndexChange{{Delete: "gsi1"}, {Delete: "nosuchindex"}}})
+	})
+	add("updatetable-delete-two-existing-then-fail", func(r *rand.Rand, t string, p, a val.Item) []adapt.Op {
+		return one(adapt.Op{Kind: adapt.OpUpdateTable, Table: t, Chg: []adapt.IndexChange{{Delete: "gsi2"}, {Delete: "gsi4"}, {Create: &adapt.IndexSpec{Name: "gsiNew", Hash: "v2"}}, {Delete: "nosuchindex"}}})
+	})
 	add("updatetable-delete-missing-index", func(r *rand.Rand, t string, p, a val.Item) []adapt.Op {
 		return one(adapt.Op{Kind: adapt.OpUpdateTable, Table: t, Chg: []adapt.IndexChange{{Delete: "nosuchindex"}}})
 	})
@@ -318,6 +328,34 @@ func c08Faults() []fault {
 	add("createtable-invalid-after-valid-name", func(r *rand.Rand, t string, p, a val.Item) []adapt.Op {
 		s := adapt.TableSpec{Name: "brandnew", Hash: "h", Billing: "PROVISIONED"} // no throughput
 		return one(adapt.Op{Kind: adapt.OpCreateTable, Spec: &s})
+	})
+	// 13 an item that predates an index and whose attribute has another type than the index key declares
+	// (such items are simply not indexed): later writes to THAT item are validated against the new index
+	lateIx := func(id string, last func(t string) adapt.Op) {
+		fs = append(fs, fault{id: "late-index-legacy-item/" + id, stateSetup: true, mayPass: true, mk: func(r *rand.Rand, t string, p, a val.Item) []adapt.Op {
+			legacy := ixItem("legacy", "1", "x", "1", 5)
+			legacy["w"] = val.Num("7")
+			return []adapt.Op{
+				{Kind: adapt.OpPut, Table: t, Item: legacy},
+				{Kind: adapt.OpUpdateTable, Table: t, Chg: []adapt.IndexChange{{Create: &adapt.IndexSpec{Name: "gsiLate", Hash: "w"}}}},
+				last(t),
+			}
+		}})
+	}
+	lk := val.Item{"h": val.Str("legacy"), "r": val.Str("1")}
+	lateIx("update-other-attribute", func(t string) adapt.Op { return mon.SetUpdate(t, lk, "note", val.Str("touched")) })
+	lateIx("update-remove-other-attribute", func(t string) adapt.Op { return mon.RemoveUpdate(t, lk, "v") })
+	lateIx("update-other-index-key", func(t string) adapt.Op { return mon.SetUpdate(t, lk, "g", val.Str("y")) })
+	lateIx("update-add-number", func(t string) adapt.Op { return mon.AddUpdate(t, lk, "v", val.Num("1")) })
+	lateIx("put-same-legacy-value", func(t string) adapt.Op {
+		it := ixItem("legacy", "1", "y", "9", 6)
+		it["w"] = val.Num("8")
+		return adapt.Op{Kind: adapt.OpPut, Table: t, Item: it}
+	})
+	lateIx("batch-put-legacy-value-after-valid", func(t string) adapt.Op {
+		it := ixItem("legacy", "1", "y", "9", 6)
+		it["w"] = val.Num("8")
+		return adapt.Op{Kind: adapt.OpBatchWrite, Batch: []adapt.BatchEntry{{Table: t, Put: ixItem("b2", "1", "x", "1", 1)}, {Table: t, Put: it}}}
 	})
 	return fs
 }
@@ -391,7 +429,15 @@ func (p *c08) RunCase(ctx *runner.Ctx) runner.CaseResult {
 	failing := ops[len(ops)-1]
 	before := mon.Snapshot(cl, tables, keys)
 	for _, op := range ops[:len(ops)-1] {
-		cl.Do(op)
+		if o := cl.Do(op); f.stateSetup && o.Class != adapt.ClsOK {
+			x.r.Inconclusive++
+			x.r.Counters["fault_setup_failed"]++
+			return x.r
+		}
+	}
+	if f.stateSetup {
+		keys.Add(spec.Name, val.Item{"h": val.Str("legacy"), "r": val.Str("1")})
+		before = mon.Snapshot(cl, tables, keys)
 	}
 	ctx.Trace("%s %s", adapter, failing.String())
 	got := cl.Do(failing)
@@ -404,6 +450,10 @@ func (p *c08) RunCase(ctx *runner.Ctx) runner.CaseResult {
 	x.set("classes", got.Class)
 	x.fp(len(t.Items) >= 2, "%s|%s|%s", adapter, f.id, sizeClass(len(t.Items)))
 	wit := map[string]interface{}{"adapter": adapter, "fault": f.id, "history": hist, "setup_ops": ops[:len(ops)-1], "failing_op": failing, "outcome": got}
+	if got.Class == adapt.ClsOK && f.mayPass {
+		x.r.Counters["may_pass_fault_passed"]++
+		return x.r
+	}
 	if got.Class == adapt.ClsOK {
 		x.r.Counters["fault_did_not_fail"]++
 		// the request was expected to fail; that it did not is another property's business
@@ -416,6 +466,9 @@ func (p *c08) RunCase(ctx *runner.Ctx) runner.CaseResult {
 	}
 	if before != after {
 		x.viol("failed-request-left-trace", f.id, fmt.Sprintf("[%s] fault %s (class %s) changed the observable state.\n--- before\n%s--- after\n%s", adapter, f.id, got.Class, before, after), wit)
+		return x.r
+	}
+	if f.stateSetup {
 		return x.r
 	}
 	// continuation: the model skipped the failing call
